@@ -490,6 +490,7 @@ func splatReader(a *anchors, r *sx.Rep, fn *ssa.Function) *recSide {
 			side.fields = append(side.fields, recField{attr: at, comp: k, off: off, size: ch.src.width, ch: ch, pos: p, order: ch.src.order})
 		}
 	}
+	recAll(a, r, e, fn, rf, bufRoot, attrs, names)
 	side.ok = true
 	// LAY-1: the ranges tile [0, len)
 	fs := append([]recField{}, side.fields...)
@@ -696,5 +697,116 @@ func splatPair(a *anchors, r *sx.Rep, ws, rs *recSide) {
 		r.Violate("LAY-2", wname+"~"+rname+"#record", a.p.Pos(rs.fn.Pos()), fmt.Sprintf("writer emits %d bytes per splat, reader consumes %d", ws.recLen, rs.recLen))
 	} else {
 		r.Hold("LAY-2", wname+"~"+rname+"#record", a.p.Pos(rs.fn.Pos()), fmt.Sprintf("both sides: %d bytes per splat", ws.recLen))
+	}
+}
+
+// appendCallsOf returns the append calls that build a slice value (through phis).
+func appendCallsOf(v ssa.Value) []*ssa.Call {
+	var out []*ssa.Call
+	seen := map[ssa.Value]bool{}
+	var walk func(v ssa.Value)
+	walk = func(v ssa.Value) {
+		if seen[v] {
+			return
+		}
+		seen[v] = true
+		switch x := v.(type) {
+		case *ssa.Phi:
+			for _, ed := range x.Edges {
+				walk(ed)
+			}
+		case *ssa.Call:
+			if ssau.Builtin(x) == "append" && len(x.Call.Args) == 2 {
+				out = append(out, x)
+				walk(x.Call.Args[0])
+			}
+		}
+	}
+	walk(v)
+	return out
+}
+
+// recAll decides REC-ALL for the append form of a record decoder: every record
+// that io.ReadFull delivered yields exactly one element of every attribute
+// array — the append executes in every iteration that gets past the read; a
+// branch that lets an iteration reach the back edge without appending is a skip.
+// A skip whose condition derives from the record bytes is a violation (the
+// splat is dropped, the count shrinks, later splats shift); only the outcome of
+// the read itself may end or skip an iteration.
+func recAll(a *anchors, r *sx.Rep, e *sx.Env, fn *ssa.Function, rf *sx.IOOp, bufRoot ssa.Value, attrs map[string]ssa.Value, names []string) {
+	name := a.p.FuncName(fn)
+	loops := e.LoopsOf(rf.Call.Block())
+	if len(loops) == 0 {
+		return
+	}
+	loop := loops[len(loops)-1]
+	okAll := true
+	for _, at := range names {
+		for _, ac := range appendCallsOf(attrs[at]) {
+			if !loop.Blocks[ac.Block()] {
+				continue
+			}
+			skipped := false
+			for _, l := range loop.Latch {
+				if !ac.Block().Dominates(l) {
+					skipped = true
+				}
+			}
+			if !skipped {
+				continue
+			}
+			okAll = false
+			// classify the skipping branch
+			var culprit *ssa.If
+			fromBytes := false
+			for _, b := range fn.Blocks {
+				if !loop.Blocks[b] || len(b.Instrs) == 0 || !rf.Call.Block().Dominates(b) {
+					continue
+				}
+				iff, ok := b.Instrs[len(b.Instrs)-1].(*ssa.If)
+				if !ok {
+					continue
+				}
+				// one successor reaches the loop header again without passing the append
+				skips := false
+				for _, s := range b.Succs {
+					if !loop.Blocks[s] {
+						continue
+					}
+					if s == loop.Header || ssau.ReachesAvoiding(s, loop.Header, map[*ssa.BasicBlock]bool{ac.Block(): true}) && s != ac.Block() {
+						skips = true
+					}
+				}
+				if !skips || !b.Dominates(ac.Block()) && ac.Block() != b {
+					continue
+				}
+				sl := sx.NewSlicer(nil).WithEnv(e)
+				sl.StopAt = func(v ssa.Value) bool { return v == ssa.Value(rf.Call) }
+				sl.From(iff.Cond, nil, nil)
+				dep := false
+				for _, v := range sl.Values() {
+					if _, isSl := v.Type().Underlying().(*types.Slice); isSl {
+						if root, _ := e.SliceRoot(v); root == bufRoot {
+							dep = true
+						}
+					}
+				}
+				if dep || culprit == nil {
+					culprit, fromBytes = iff, dep
+				}
+			}
+			key := name + "#" + at
+			switch {
+			case culprit != nil && fromBytes:
+				r.Violate("REC-ALL", key, a.p.Pos(ssau.PosOf(culprit)), "a record that was read is skipped depending on its decoded bytes: the "+at+" array gets no element for it, so the splat is dropped, the count shrinks and later splats shift (every record yields one splat; only the read's error / EOF may end the loop)")
+			case culprit != nil:
+				r.Undecide("REC-ALL", key, a.p.Pos(ssau.PosOf(culprit)), "the append to the "+at+" array does not execute in every iteration that gets past the read; the skipping condition is not derived from the record bytes")
+			default:
+				r.Undecide("REC-ALL", key, a.p.Pos(ac.Pos()), "the append to the "+at+" array does not execute in every iteration that gets past the read")
+			}
+		}
+	}
+	if okAll {
+		r.Hold("REC-ALL", name+"#records", a.p.Pos(rf.Call.Pos()), fmt.Sprintf("every iteration that gets past io.ReadFull appends exactly one element to each of the %d attribute arrays (append blocks dominate the back edge)", len(names)))
 	}
 }
